@@ -530,3 +530,55 @@ func (w *World) concreteCheck(fr *FuncResult, args []concreteArg, obs []string, 
 }
 
 func (w *World) verifyLemmas(prop string) []*FuncResult { return nil }
+
+// replayGo runs a hand-written reproduction from the contract file (clause replay-go) inside the
+// package of the function. The body prints a line starting with VCGO-VIOLATED (or panics) when the
+// defect shows on the real code.
+func (w *World) replayGo(fr *FuncResult, body string) ReplayResult {
+	rr := ReplayResult{Attempted: true}
+	fn := fr.Fn
+	if fn == nil || fn.Pkg == nil {
+		rr.Reason = "no function"
+		return rr
+	}
+	var b strings.Builder
+	fmt.Fprintf(&b, "package %s\n\nimport (\n\t\"bytes\"\n\t\"fmt\"\n\t\"strings\"\n\t\"testing\"\n)\n\nvar _ = bytes.Contains\nvar _ = strings.Contains\n\n", fn.Pkg.Pkg.Name())
+	b.WriteString("func TestVcgoReplay(t *testing.T) {\n\tdefer func() {\n\t\tif r := recover(); r != nil {\n\t\t\tfmt.Printf(\"VCGO-PANIC %v\\n\", r)\n\t\t}\n\t}()\n")
+	b.WriteString("\t" + body + "\n}\n")
+	src := b.String()
+	rr.TestFile = src
+	pkgDir := filepath.Dir(w.fset.Position(fn.Pos()).Filename)
+	tmp, err := os.MkdirTemp("", "vcgoreplay")
+	if err != nil {
+		rr.Reason = err.Error()
+		return rr
+	}
+	defer os.RemoveAll(tmp)
+	testPath := filepath.Join(pkgDir, "zz_vcgo_replay_test.go")
+	srcPath := filepath.Join(tmp, "replay_test.go")
+	os.WriteFile(srcPath, []byte(src), 0o644)
+	ov, _ := json.Marshal(map[string]interface{}{"Replace": map[string]string{testPath: srcPath}})
+	ovPath := filepath.Join(tmp, "ov.json")
+	os.WriteFile(ovPath, ov, 0o644)
+	ctx, cancel := context.WithTimeout(context.Background(), 180*time.Second)
+	defer cancel()
+	cmd := exec.CommandContext(ctx, "go", "test", "-tags", "verif", "-overlay", ovPath, "-v", "-vet=off", "-timeout", "60s", "-count=1", "-run", "^TestVcgoReplay$", ".")
+	cmd.Dir = pkgDir
+	cmd.Env = append(os.Environ(), "GOFLAGS=-mod=mod", "GOPROXY=off", "GOSUMDB=off", "GOTOOLCHAIN=local")
+	rr.Cmd = "cd " + pkgDir + " && go test -tags verif -overlay <ov.json> -v -vet=off -timeout 60s -count=1 -run '^TestVcgoReplay$' ."
+	outB, _ := cmd.CombinedOutput()
+	for _, l := range strings.Split(string(outB), "\n") {
+		if strings.HasPrefix(l, "VCGO-") {
+			rr.Observed = append(rr.Observed, l)
+			if strings.HasPrefix(l, "VCGO-VIOLATED") || strings.HasPrefix(l, "VCGO-PANIC") {
+				rr.Confirmed = true
+			}
+		}
+	}
+	if rr.Confirmed {
+		rr.Reason = "hand-written reproduction from the contract file shows the defect on the real code"
+	} else {
+		rr.Reason = "reproduction did not show the defect: " + firstLines(string(outB), 6)
+	}
+	return rr
+}
